@@ -327,6 +327,40 @@ func runC16(c *engine.Ctx) {
 				}
 			}
 		}
+		// ... and on every path from the pop to a return the "builders remain?" decision is taken (a return that comes
+		// before it spends the one pending signal on this call and strands what is queued behind)
+		if ok {
+			var pop *ssa.Store
+			for _, st := range engine.StoresTo([]*ssa.Function{m.popFn}, m.builders) {
+				if sl, isSl := st.Val.(*ssa.Slice); isSl && sl.Low != nil {
+					pop = st
+				}
+			}
+			if pop != nil {
+				isDecision := func(in ssa.Instruction) bool {
+					if liftedSignal(in) {
+						return true
+					}
+					ifi, isIf := in.(*ssa.If)
+					if !isIf {
+						return false
+					}
+					for _, cd := range engine.FlattenCond(engine.Cond{V: ifi.Cond, Pol: true}) {
+						if b, isB := engine.LocalValue(cd.V).(*ssa.BinOp); isB {
+							if call, isC := engine.LocalValue(b.X).(*ssa.Call); isC {
+								if bi, isBi := call.Call.Value.(*ssa.Builtin); isBi && bi.Name() == "len" && (isLoadOfField(call.Call.Args[0], m.builders) || engine.Strip(call.Call.Args[0]) == engine.Strip(pop.Val)) {
+									return true // length of the list, or of what has just been stored as the list
+								}
+							}
+						}
+					}
+					return false
+				}
+				if r, _ := engine.MustReachBeforeReturn(pop, isDecision, nil); !r {
+					ok = false
+				}
+			}
+		}
 		c.Decide(r3, engine.FuncName(m.extract)+"|resignal", m.extract.Pos(), ok,
 			"extract re-signals outgoing work when builders remain",
 			"the extract step no longer re-signals when builders remain: queued messages can be stranded (and missed by the shutdown drain)")
